@@ -44,7 +44,7 @@ func writeManifest() {
 			"level_note":          ln,
 		})
 	}
-	var na []any
+	na := []any{}
 	for i := 1; i <= 20; i++ {
 		id := fmt.Sprintf("C%02d", i)
 		if props[id] != nil {
